@@ -58,21 +58,16 @@ func newWorld(n int) (*world.World, func()) {
 	}
 	w.Height = 1
 	return w, func() {
-		// a case that persisted blocks (world.Persist) wrote into the shared store: empty it again
-		st.NewBatch()
-		n := 0
+		// a case that persisted blocks (world.Persist) wrote into the shared store: drop that store (deleting
+		// the keys would leave LevelDB tombstones that slow every later iteration down)
 		it := st.NewIterator(nil)
-		for it.Next() {
-			st.BatchDelete(append([]byte(nil), it.Key()...))
-			n++
-		}
+		dirty := it.Next()
 		it.Release()
-		if n > 0 {
-			if err := st.BatchCommit(); err != nil {
-				panic(err)
-			}
-		}
 		poolMu.Lock()
+		if dirty {
+			st.Close()
+			poolStore, poolOverlay = nil, nil
+		}
 		poolBusy = false
 		poolMu.Unlock()
 	}
